@@ -30,7 +30,8 @@ ASSUMPTIONS = [
 ]
 TIMEOUT = {"quick": 400, "thorough": 2400}
 REQUIRED = {"advance_calls": 150, "advance:m=0": 20, "advance:not_multiple_of_100": 80, "pool_runs": 16, "pool_chains_compared": 40,
-            "run_for_runs": 60, "run_for:slow_steps": 15, "advance:interrupted": 10, "tempering_advances": 12}
+            "run_for_runs": 60, "run_for:slow_steps": 15, "advance:interrupted": 10, "tempering_advances": 12,
+            "tempering_timed_runs": 8, "post:advance_user_written_chain": 100}
 
 
 def jobs(tier, seed):
@@ -84,6 +85,142 @@ class CostedTarget:
 
     def grad(self, t):
         return -np.asarray(t, float)
+
+
+
+def user_chain_class():
+    """A sampler written by a user on the library's MarkovChain base class, providing exactly what that class declares
+    (chain_length, n_parameters, ProgressPrinter, the three read-outs) plus take_step: advance / run_for are inherited."""
+    from inference.mcmc.base import MarkovChain
+    from inference.mcmc.utilities import ChainProgressPrinter
+
+    class UserRandomWalk(MarkovChain):
+        def __init__(self, posterior, start, width, seed, quiet=True):
+            self.posterior = posterior
+            self.walk_rng = np.random.default_rng(seed)
+            self.width = float(width)
+            self.points = [np.array(start, dtype=float)]
+            self.logp = [float(posterior(self.points[0]))]
+            self.chain_length = 1
+            self.n_parameters = self.points[0].size
+            self.ProgressPrinter = ChainProgressPrinter(display=not quiet, leading_msg="UserRandomWalk:")
+
+        def take_step(self):
+            cur, lp = self.points[-1], self.logp[-1]
+            prop = cur + self.width * self.walk_rng.normal(size=cur.size)
+            lq = float(self.posterior(prop))
+            if np.log(self.walk_rng.random()) < lq - lp:
+                cur, lp = prop, lq
+            self.points.append(cur)
+            self.logp.append(lp)
+            self.chain_length += 1
+
+        def get_parameter(self, index, burn=1, thin=1):
+            return np.array([p[index] for p in self.points[burn::thin]])
+
+        def get_probabilities(self, burn=1, thin=1):
+            return np.array(self.logp[burn::thin])
+
+        def get_sample(self, burn=1, thin=1):
+            return np.array(self.points[burn::thin])
+
+    return UserRandomWalk
+
+
+def user_chain_programs(job, rec, rng):
+    import contextlib
+    import io
+
+    cls = user_chain_class()
+    for c in range(job.get("n_user", 6)):
+        d = int(rng.choice([1, 2, 3]))
+        quiet = bool(rng.random() < 0.7)
+        ch = cls(mc.GaussTarget(np.zeros(d), np.eye(d)), rng.normal(size=d), 0.8, int(rng.integers(2**31)), quiet=quiet)
+        prog = [int(rng.choice([0, 1, 7, 99, 100, 101, 250, int(rng.integers(0, 130))])) for _ in range(int(rng.integers(1, 5)))]
+        ctx = {"user_written_chain": c, "d": d, "quiet": quiet, "program": prog}
+        rec.context = ctx
+        rec.case(digest("user-chain", d, prog), nontrivial=True)
+        cur = 1
+        for m in prog:
+            with contextlib.redirect_stdout(io.StringIO()):
+                r = guarded(ch.advance, m)
+            rec.count("post:advance_user_written_chain")
+            cur += m
+            got = (ch.chain_length, len(ch.get_sample(burn=0)), len(ch.get_probabilities(burn=0)))
+            if not rec.check((not isinstance(r, Raised)) and got == (cur, cur, cur), "wrong-number-of-samples",
+                             lambda: f"a chain written on the MarkovChain base class: advance({m}) {'raised ' + repr(r) if isinstance(r, Raised) else ''} "
+                                     f"left chain_length / samples / log-probabilities = {got}, expected {cur}", ctx):
+                break
+
+
+def tempering_timed_runs(job, rec, rng):
+    """ParallelTempering.run_for on a virtual clock: the parent's clock (the `time` name of inference.mcmc.parallel) is advanced by
+    (steps x cost per step) every time a cycle's steps have been taken; verdicts are taken on that clock."""
+    import contextlib
+    import io
+    import inference.mcmc.parallel as par
+    from inference.mcmc import ParallelTempering, GibbsChain
+
+    real_time = par.time
+    for c in range(job.get("n_pt_timed", 1)):
+        n = int(rng.choice([2, 3]))
+        d = 1
+        si = int(rng.choice([1, 10, 100, 400]))
+        cost = float(10.0 ** rng.uniform(-3.3, -1.5))            # virtual seconds per step
+        n_steps = int(rng.integers(1500, 5000))                    # steps that fit into the budget
+        budget = cost * n_steps
+        tctx = {"tempering_timed_run": c, "chains": n, "swap_interval": si, "step_cost_s": cost, "budget_s": budget}
+        rec.context = tctx
+        chains = [GibbsChain(posterior=mc.GaussTarget(np.zeros(d), np.eye(d)), start=np.zeros(d) + 0.1 * i, widths=np.ones(d), temperature=float(T),
+                             display_progress=False) for i, T in enumerate(np.cumprod([1.0] + [2.0] * (n - 1)))]
+        pt = guarded(ParallelTempering, chains)
+        if isinstance(pt, Raised):
+            rec.violation("raised", f"ParallelTempering construction raised {pt!r}", tctx)
+            continue
+        clock = VirtualClock()
+        cycles = []
+        real_take = pt.take_steps
+
+        def take(k, real_take=real_take, clock=clock, cycles=cycles, cost=cost):
+            cycles.append(clock.now)       # (start of a cycle on the virtual clock)
+            real_take(k)
+            clock.work(k * cost)
+
+        try:
+            pt.take_steps = take
+            par.time = clock.time
+            t0 = clock.now
+            with contextlib.redirect_stdout(io.StringIO()):
+                r = guarded(pt.run_for, minutes=budget / 60.0, swap_interval=si)
+            par.time = real_time
+            elapsed = clock.now - t0
+            rec.count("tempering_timed_runs")
+            if isinstance(r, Raised):
+                rec.violation("raised", f"ParallelTempering.run_for raised {r!r}", tctx)
+                continue
+            cyc = si * cost
+            out = pt.return_chains()
+            grown = [int(ch.chain_length) - 1 for ch in out]
+            rec.case(digest("pt-timed", n, si, cost, budget), nontrivial=True)
+            rec.check(len(set(grown)) == 1 and grown[0] == len(cycles) * si, "timed-run-unequal-steps",
+                      lambda: f"chains grew by {grown} in {len(cycles)} cycles of {si} steps", tctx)
+            rec.check(elapsed >= budget, "timed-run-stopped-early", lambda: f"run_for returned after {elapsed:.6g} s of a {budget:.6g} s budget", tctx)
+            # cycles come in batches sized to last about two seconds (documented in the source: a print-out roughly every 2 seconds): the run may
+            # finish the batch in progress when the budget expires, nothing more (calibration cycle + one batch of max(2 s, one cycle))
+            late = [t for t in cycles if t >= t0 + budget]
+            allowed = 2.5 + 2 * cyc
+            rec.check(len(late) * cyc <= allowed, "timed-run-overshoots",
+                      lambda: f"ParallelTempering.run_for(swap_interval={si}): {len(late)} cycles lasting {len(late) * cyc:.6g} s were started after the {budget:.6g} s budget "
+                              f"had expired (one cycle lasts {cyc:.3g} s; returned after {elapsed:.6g} s)", tctx)
+        finally:
+            par.time = real_time
+            try:
+                pt.shutdown()
+            except Exception:
+                pass
+            for p_ in pt.processes:
+                if p_.is_alive():
+                    p_.terminate()
 
 
 def run_job(job, rec):
@@ -183,6 +320,9 @@ def run_job(job, rec):
                     want2 = got[0] + m2 * per
                     rec.check((not isinstance(r2, Raised)) and (not isinstance(got2, Raised)) and got2 == (want2, want2, want2), "wrong-number-of-samples",
                               lambda: f"{kind}: advance({m2}) after an interrupted advance gives chain_length / samples / log-probabilities = {got2!r}, expected {want2}", ctx)
+
+    user_chain_programs(job, rec, mk_rng(job["seed"], "C15-user", job["j"]))
+    tempering_timed_runs(job, rec, mk_rng(job["seed"], "C15-pt-timed", job["j"]))
 
     # ------------------------------------------------ chains advanced together under parallel tempering: every chain by the requested number of steps
     from vmon.props import c08
